@@ -204,19 +204,37 @@ def gen_code(ctx, quick):
 def gen_basic(ctx, quick):
     rng = ctx.rng
     cs = []
-    logins = ["alice", "Alice", "ALICE", "bob", "Bob", "Älice", "älice", "carol.x_1", "a", "bad name", "", "dave"]
-    pws = ["secret", "Secret", "pw", "x:y:z", "longer password 123", "secreT"]
-    for _ in range(8 if quick else 150):
+    spell = {"alice": ["alice", "Alice", "ALICE", "aLiCe"], "bob": ["bob", "Bob", "BOB"],
+             "\u00e4lice": ["\u00e4lice", "\u00c4lice", "\u00c4LICE"], "carol.x_1": ["carol.x_1", "Carol.X_1"], "dave": ["dave", "DAVE"]}
+    odd = ["a", "bad name", "", "_x", "x_"]
+    pws = ["secret", "Secret", "x:y:z", "longer password 123", "secreT"]
+    def sec(login, pw):
+        return hx((login + ":" + pw).encode("utf8"))
+    for _ in range(10 if quick else 200):
+        base = rng.sample(sorted(spell), rng.choice([1, 2, 3]))
+        pw = {b: rng.choice(pws) for b in base}
+        uid = {b: i + 1 for i, b in enumerate(base)}
         ops = []
-        for _ in range(rng.randrange(6, 14)):
-            sec = hx((rng.choice(logins) + ":" + rng.choice(pws)).encode("utf8"))
+        for _ in range(rng.randrange(8, 16)):
+            b = rng.choice(base)
+            login = rng.choice(spell[b])
             x = rng.random()
-            if x < 0.3:
-                ops.append("ADD:%d:%d:%s:%d" % (rng.choice([1, 2, 3, 4]), rng.choice([0, 10, 20]), sec, rng.choice([0, 0, 10 * SEC])))
+            if x < 0.25 or len(ops) < 2:
+                ops.append("ADD:%d:%d:%s:%d" % (rng.choice([uid[b], uid[b], 9]), rng.choice([0, 10, 20]),
+                                              sec(rng.choice([login, login, rng.choice(odd)]), rng.choice([pw[b], pw[b], "pw"])),
+                                              rng.choice([0, 0, 10 * SEC])))
+            elif x < 0.5:
+                ops.append("AUTH:%s" % sec(login, pw[b]))
+            elif x < 0.7:
+                ops.append("AUTH:%s" % sec(login, rng.choice(pws + [pw[b][:-1], pw[b] + "x", ""])))
             elif x < 0.75:
-                ops.append("AUTH:%s" % sec)
+                ops.append("AUTH:%s" % sec(rng.choice(["zed", "alic", "alicee"] + odd), pw[b]))
             elif x < 0.85:
-                ops.append("UPD:%d:%s:%d" % (rng.choice([1, 2, 3, 4]), rng.choice([sec, hx((":" + rng.choice(pws)).encode())]), rng.choice([0, 10 * SEC])))
+                npw = rng.choice(pws)
+                other = rng.choice(sorted(spell))
+                ops.append("UPD:%d:%s:%d" % (uid[b], sec(rng.choice(["", login, rng.choice(spell[other])]), npw), rng.choice([0, 10 * SEC])))
+                if rng.random() < 0.7:
+                    ops.append("AUTH:%s" % sec(login, npw))
             elif x < 0.9:
                 ops.append("AUTH:%s" % hx(rng.choice([b"nocolon", b"", b":", b"alice"])))
             else:
@@ -403,15 +421,21 @@ def mon_basic(c, r, a, fails):
         s = unhx(sech)
         if b":" not in s:
             return None
-        return low.get(sech), s.split(b":", 1)[1]
-    recs = {}    # lower login -> (uid, password)
+        lo = low.get(sech)
+        return ("" if lo == "-" else lo), s.split(b":", 1)[1]
+    recs = {}    # lower login -> (uid, password, logical expiry or None)
+    clock = 0
+    def until(lt):
+        return clock + int(lt) // SEC if int(lt) > 0 else None
     for i, (op, o) in enumerate(zip(ops, outs)):
         f = op.split(":")
-        if f[0] == "ADD" and o.startswith("ADD:ok"):
+        if f[0] == "ADV":
+            clock += int(f[1])
+        elif f[0] == "ADD" and o.startswith("ADD:ok"):
             lo, pw = parse(f[3])
             if lo in recs:
                 fails.append(("login-unique", c, "op %d: login registered twice (up to letter case)" % i))
-            recs[lo] = (f[1], pw)
+            recs[lo] = (f[1], pw, until(f[4]))
         elif f[0] == "UPD" and o == "UPD:ok":
             lo, pw = parse(f[2])
             old = [k for k, v in recs.items() if v[0] == f[1]]
@@ -420,7 +444,7 @@ def mon_basic(c, r, a, fails):
                 fails.append(("login-unique", c, "op %d: rename onto an existing login" % i))
             for k in old:
                 del recs[k]
-            recs[name] = (f[1], pw)
+            recs[name] = (f[1], pw, until(f[3]))
         elif f[0] == "AUTH" and o.startswith("AUTH:ok"):
             p = parse(f[1])
             if p is None or p[0] not in recs:
@@ -429,6 +453,8 @@ def mon_basic(c, r, a, fails):
                 fails.append(("basic-wrong-password-never", c, "op %d: wrong password authenticated" % i))
             elif o.split(":")[2] != recs[p[0]][0]:
                 fails.append(("basic-yields-owner", c, "op %d: authenticated as another user" % i))
+            elif recs[p[0]][2] is not None and clock > recs[p[0]][2]:
+                fails.append(("basic-expired-never", c, "op %d: password authenticated %d s after its validity ended" % (i, clock - recs[p[0]][2])))
     st = r.split()[-1]
     if st.startswith("st:") and st != "st:-":
         keys = [e.split("=")[0] for e in st[3:].split(";")]
